@@ -137,7 +137,7 @@ func c02ScratchBuffers(r *core.R, m *pbfModel) {
 				}
 				fn := callee(info, p)
 				switch {
-				case isPkgFunc(fn, "io", "ReadFull"), isPkgFunc(fn, "google.golang.org/protobuf/proto", "Unmarshal"):
+				case pbfIsReadCall(info, p), isPkgFunc(fn, "google.golang.org/protobuf/proto", "Unmarshal"):
 				case fn != nil && fn.Name() == "Uint32" && fn.Pkg() != nil && fn.Pkg().Path() == "encoding/binary":
 				case fn != nil && m.funcs[fn] != nil:
 					tf := m.funcs[fn]
